@@ -1,9 +1,11 @@
 """C13, the tree mutators of the DOM layer: `NodeMut for XmlElement` and `NodeMut for XmlDocument` -- `insert_before`, `remove_child` (dom/src/lib.rs): the
 exception mapping and the "a refused call changes nothing" half at the layer the caller sees.  What the information-set layer
 below does is proved in units/c13_tree.py (`HasChildren::insert_before / append / delete`: refuse and change nothing, or perform);
-here those are ASSUMED callees: a refusal changes nothing, `OufOfIndex` is answered exactly when the reference is not a child (or
-is the new child itself), any other refusal is the hierarchy / type check (`refused_below`, uninterpreted), and a performed call
-relates the two worlds by `inserted` / `deleted` (uninterpreted relations this layer only hands on).
+here those are ASSUMED callees whose contract is, clause for clause, what is proved there (UNIT['callee_links'] names the
+obligations): a refusal changes nothing, `OufOfIndex` is answered exactly when the reference is not a child (or is the new child
+itself), any other refusal is the hierarchy / type check (`refused_below`, uninterpreted: `!accepts(value)` there), and a
+performed call relates the two worlds by `inserted` / `deleted` (uninterpreted relations this layer only hands on: the
+child-list and order-vector effects stated there).
 
 DOM Level 1: WRONG_DOCUMENT_ERR when the new child or the reference child belongs to another document, NOT_FOUND_ERR when the
 reference (or the child to remove) is not a child of this node, HIERARCHY_REQUEST_ERR / NotSupportErr when the node kind cannot be
@@ -155,4 +157,17 @@ def build():
 
 
 TEMPLATE, FNS = build()
-UNIT = dict(name='c13_domtree', template=TEMPLATE, fns=FNS, props=['C13'])
+HC = 'HasChildren::{} (trait default)/post:{}'
+# the assumed callees of this layer and the obligations of units/c13_tree.py that are their clauses (vocabulary: `list(e)` is
+# the receiver's `children`, `!refused_below(w, e, x)` is `accepts(x)`, `unchanged` is `same_state`, `inserted` / `deleted` are
+# the child-list and order-vector effects stated there); the driver reports whether those were discharged in the same run
+UNIT = dict(name='c13_domtree', template=TEMPLATE, fns=FNS, props=['C13'],
+            callee_links={
+                'info_insert_before': [('c13_tree', HC.format('insert_before', l)) for l in (
+                    'C13+C14:refused_call_changes_nothing', 'C13:out_of_index_exactly_when_the_reference_is_not_a_child_or_is_the_node_itself',
+                    'C13:succeeds_exactly_when_reference_and_node_are_acceptable', 'C13:the_child_lands_directly_before_the_reference')],
+                'info_append': [('c13_tree', HC.format('append', l)) for l in (
+                    'C13+C14:refused_call_changes_nothing', 'C13:succeeds_exactly_when_the_node_is_acceptable', 'C13:the_child_becomes_the_last_child')],
+                'info_delete': [('c13_tree', HC.format('delete', l)) for l in (
+                    'C13:unknown_child_changes_nothing', 'C13:a_child_is_removed_and_answered_exactly_when_it_is_listed', 'C13:the_answer_is_the_child', 'C13+C14:removed_child_loses_its_key')],
+            })
